@@ -56,6 +56,8 @@ pub struct Spec {
     pub consts: Vec<ConstSpec>,
     pub nodes: Vec<NodeSpec>,
     pub outputs: Vec<String>,
+    /// results of random operators: never graph outputs, only used to observe run-to-run variation
+    pub hidden: Vec<String>,
     pub data: Vec<(String, Vec<f64>)>,
 }
 
@@ -93,6 +95,7 @@ impl Spec {
             items.push(s);
         }
         items.push(format!("O {}", self.outputs.join(",")));
+        if !self.hidden.is_empty() { items.push(format!("H {}", self.hidden.join(","))); }
         for (n, d) in &self.data { items.push(format!("D {} {}", n, vals_str(d))); }
         items.join(" ; ")
     }
@@ -127,6 +130,7 @@ impl Spec {
                     s.nodes.push(NodeSpec { op: t[1].into(), name: t[2].into(), ins, outs, attrs });
                 }
                 "O" => s.outputs = t[1].split(',').map(|x| x.to_string()).collect(),
+                "H" => s.hidden = t[1].split(',').map(|x| x.to_string()).collect(),
                 "D" => s.data.push((t[1].to_string(), parse_vals(t[2]))),
                 _ => {}
             }
@@ -375,7 +379,7 @@ pub fn rust_verdict(spec: &Spec, outcomes: &[Outcome]) -> Option<String> {
 pub const CONFIGS: [(bool, u8); 4] = [(false, 0), (true, 0), (true, 1), (true, 2)];
 pub fn mode_of(k: u8) -> ShapeInferenceMode { match k { 0 => ShapeInferenceMode::Off, 1 => ShapeInferenceMode::On, _ => ShapeInferenceMode::Strict } }
 
-pub struct RunAll { pub outcomes: Vec<Outcome>, pub dumps: Vec<Option<String>>, pub infos: ValueInfos }
+pub struct RunAll { pub outcomes: Vec<Outcome>, pub dumps: Vec<Option<String>>, pub infos: ValueInfos, pub varies: Vec<bool> }
 
 pub fn run_all(spec: &Spec) -> RunAll {
     let infos = if spec.vi { learn_infos(spec) } else { vec![] };
@@ -387,7 +391,16 @@ pub fn run_all(spec: &Spec) -> RunAll {
         outcomes.push(o);
         dumps.push(d);
     }
-    RunAll { outcomes, dumps, infos }
+    // run-to-run variation of the hidden random values (two runs of one loaded model)
+    let mut varies = vec![];
+    if !spec.hidden.is_empty() {
+        for (opt, mode) in CONFIGS {
+            let (a, _) = run_config(spec, &bytes, opt, mode_of(mode), &spec.hidden);
+            let (b, _) = run_config(spec, &bytes, opt, mode_of(mode), &spec.hidden);
+            varies.push(match (&a, &b) { (Outcome::Ok(_), Outcome::Ok(_)) => a != b, _ => true });
+        }
+    }
+    RunAll { outcomes, dumps, infos, varies }
 }
 
 pub fn coq_list<T: AsRef<str>>(xs: &[T]) -> String { format!("[{}]", xs.iter().map(|x| x.as_ref()).collect::<Vec<_>>().join("; ")) }
